@@ -9,14 +9,19 @@ def strip_comments(s):
     s = re.sub(r"/\*.*?\*/", " ", s, flags=re.S)
     return re.sub(r"//[^\n]*", " ", s)
 DECL = re.compile(r"(?:static\s+|extern\s+)?(?:constexpr|const)\s+([\w<>:, ]+?)\s+([\w:<>]+)\s*(\[[^\]]*\])?\s*=\s*\{")
+# namespace-scope objects that are not declared const (g1_endomorphism_lambda)
+DECL2 = re.compile(r"(?<=[;{}\n])\s*((?:BigInt<\w+>|Fq(?:2|6|12)?|Fr))\s+(\w+)\s*(\[[^\]]*\])?\s*=\s*\{")
 def main():
     out = sys.argv[1]
-    rows = []
+    rows = []; texts = {}
     files = sorted(glob.glob(os.path.join(REPO, "src", "**", "*.cpp"), recursive=True)) + sorted(glob.glob(os.path.join(REPO, "include", "**", "*.hpp"), recursive=True))
     for f in files:
         if "/arch/" in f: continue
-        src = strip_comments(open(f, errors="replace").read())
-        for m in DECL.finditer(src):
+        src = strip_comments(open(f, errors="replace").read()); texts[f] = src
+        seen = set()
+        for m in list(DECL.finditer(src)) + list(DECL2.finditer(src)):
+            if m.end() in seen: continue
+            seen.add(m.end())
             depth, j = 1, m.end()
             while depth and j < len(src):
                 if src[j] == "{": depth += 1
@@ -31,7 +36,11 @@ def main():
             # values as little-endian byte arrays (what BigNat uses)
             vals = [[(w >> (8 * k)) & 255 for w in ws for k in range(4)] for ws in groups]
             rows.append({"file": os.path.relpath(f, REPO), "name": m.group(2).split("::")[-1], "qual": m.group(2), "type": re.sub(r"\s+", " ", m.group(1)).strip(),
-                         "array": 1 if m.group(3) else 0, "n": len(groups), "vals": vals})
+                         "array": 1 if m.group(3) else 0, "n": len(groups), "vals": vals, "_span": (f, m.start(), j)})
+    # how often anything outside the constant's own initialiser names it (0: dead data, nothing can depend on it)
+    for r in rows:
+        f0, a, b = r.pop("_span"); pat = re.compile(r"\b%s\b" % re.escape(r["name"]))
+        r["uses"] = sum(len(pat.findall(t if f != f0 else t[:a] + t[b:])) for f, t in texts.items())
     with open(out, "w") as fo:
         for r in rows: fo.write(json.dumps(r, separators=(",", ":")) + "\n")
     print("constants", len(rows), "word groups", sum(r["n"] for r in rows))
